@@ -329,7 +329,7 @@ def check(run, replay_path=None):
     from verif.checks import mdibcommon, mirrorcommon
     # (covered: the situations of descriptor transactions - they change indexed attributes - and of kept entities)
     mdibcommon.run_family(run, 'C11', with_model=False, lifecycle=False, num=run.pick(100, 3000), fold=1,
-                          prefixes=('D:', 'K:', 'T:descriptor'))
+                          prefixes=('D:', 'K:', 'I:', 'T:descriptor'))
     mirrorcommon.run_family(run, 'C11', run.pick(40, 1500), [dict(), dict(async_mgr=True)], seed_offset=7,
                             prefixes=('D:',))
     for name in os.listdir(SPEC_DIR):
